@@ -2,6 +2,8 @@ package main
 
 import (
 	"fmt"
+	"math/rand"
+	"sync"
 
 	"github.com/pingcap/kvproto/pkg/metapb"
 	"verif/harness/lib/hist"
@@ -9,199 +11,421 @@ import (
 	"verif/harness/lib/sched"
 )
 
-// Gated two-worker phase: worker H = gRPC StoreHeartbeat of store X, sent right after a reload so
-// that it flushes the store record (its own storage write is the window); worker L = one short
-// lifecycle operation (sequence) on the same store. Every storage operation of the two workers
-// parks at a gate (kvx Gate/Done + lib/sched); both start orders and, depth-first, all release
-// orders are executed. L observes the served stores right after each of its operations is
-// acknowledged; the chain of observations before -> after each acknowledgement -> after both
-// workers finished is judged by the same oracles as the sequential histories (tag
-// "heartbeat-race"), plus: what L's last acknowledgement showed is final, because a heartbeat
-// never changes state, flags, address, labels or weights.
+// Gated two-worker phases. Every storage operation of the two workers parks at a gate (kvx
+// Gate/Done + lib/sched, Stagger); both start orders and, depth-first, all release orders are
+// executed. Each worker observes the served stores right after each of its operations is
+// acknowledged; the chain of observations (before, after each acknowledgement in clock order,
+// after both workers finished) is judged pairwise by the oracles of the sequential histories; a
+// pair of observations that is overlapped by two operations may differ by two allowed moves.
+//
+//	heartbeat-race : gRPC StoreHeartbeat of store X that flushes (first heartbeat after a reload)
+//	                 against one lifecycle operation (sequence) on X; additionally what the
+//	                 lifecycle worker saw at its last acknowledgement is final (a heartbeat never
+//	                 changes state, flags, address, labels, weights)
+//	lifecycle-race : two lifecycle operations of different kinds on the same store, on two stores
+//	                 competing for one address, a leader-change style reload against an operation,
+//	                 and the background check working on a snapshot of several offline stores
+//	                 against an operation on one of them
+//
+// Fault variants put a fail-before / lost-ack on the n-th store-record write of one chosen worker
+// inside the race.
 const raceTag = "heartbeat-race"
+const lifeTag = "lifecycle-race"
+
+type raceWorker struct {
+	Name string  `json:"name"`
+	Ops  []*step `json:"ops"`
+}
+
+type raceFault struct {
+	Worker int `json:"worker"`
+	Mode   int `json:"mode"` // 1 fail-before, 2 lost-ack
+	N      int `json:"nth_store_record_write_of_that_worker"`
+}
+
+type raceObs struct {
+	Tick    int64  `json:"tick"`
+	Worker  string `json:"worker"`
+	AfterOp string `json:"after_op"`
+	Served  snap   `json:"served"`
+}
 
 type raceInfo struct {
-	Case     string       `json:"case"`
-	Order    string       `json:"start_order"`
-	X        uint64       `json:"store"`
-	H        *step        `json:"heartbeat"`
-	L        []*step      `json:"lifecycle_ops"`
-	Schedule []sched.Info `json:"released_storage_ops"`
-	Mids     []snap       `json:"served_after_each_acknowledged_op"`
-	Flushed  bool         `json:"heartbeat_flushed"`
-	Blocked  int          `json:"quiescence_by_settle_rule"`
+	Family   string        `json:"family"`
+	Case     string        `json:"case"`
+	Order    string        `json:"start_order"`
+	Workers  []*raceWorker `json:"workers"`
+	Fault    *raceFault    `json:"fault,omitempty"`
+	Schedule []sched.Info  `json:"released_storage_ops"`
+	Obs      []raceObs     `json:"observations"`
+	Flushed  bool          `json:"heartbeat_flushed,omitempty"`
+	Blocked  int           `json:"quiescence_by_settle_rule"`
 }
 
 type raceCase struct {
-	name    string
-	offline bool // X is Offline (and empty) when the two workers start, else Up
-	ops     func() []*step
+	name  string
+	setup func() []*step    // sequential, fault-free, judged as usual
+	w     func() [2][]*step // operations of worker 0 and worker 1
+	names [2]string
 }
 
-func (e *env) racePhase(md *model) {
-	r := e.r
-	const X = uint64(2)
-	const xAddr = "tikv-a:20160"
-	lbl := func(k, v string) []*metapb.StoreLabel { return []*metapb.StoreLabel{{Key: k, Value: v}} }
-	cases := []raceCase{
-		{"remove", false, func() []*step { return []*step{{Cmd: "remove", ID: X}} }},
-		{"remove-destroyed", false, func() []*step { return []*step{{Cmd: "remove", ID: X, Destroyed: true}} }},
-		{"remove-destroyed+replacement", false, func() []*step {
-			return []*step{{Cmd: "remove", ID: X, Destroyed: true}, {Cmd: "put", Via: "grpc", ID: 3, Addr: xAddr, Version: "5.0.0"}}
-		}},
-		{"up", true, func() []*step { return []*step{{Cmd: "up", ID: X}} }},
-		{"destroy-offline", true, func() []*step { return []*step{{Cmd: "remove", ID: X, Destroyed: true}} }},
-		{"bury", true, func() []*step { return []*step{{Cmd: "bury", ID: X}} }},
-		{"checkstores", true, func() []*step { return []*step{{Cmd: "checkstores"}} }},
-		{"bury+cleanup", true, func() []*step { return []*step{{Cmd: "bury", ID: X}, {Cmd: "rmtomb"}} }},
-		{"bury+replacement", true, func() []*step {
-			return []*step{{Cmd: "bury", ID: X}, {Cmd: "put", Via: "grpc", ID: 3, Addr: xAddr, Version: "5.0.0"}}
-		}},
-		{"put-same-id", false, func() []*step {
-			return []*step{{Cmd: "put", Via: "grpc", ID: X, Addr: "tikv-b:20160", Version: "5.0.1", Labels: lbl("zone", "z2")}}
-		}},
-		{"labels", false, func() []*step { return []*step{{Cmd: "labels", ID: X, Labels: lbl("rack", "r1"), Force: true}} }},
-		{"weight", false, func() []*step { return []*step{{Cmd: "weight", ID: X, LW: 2, RW: 0.5}} }},
+const rX = uint64(2)
+const rXAddr = "tikv-a:20160"
+
+func lbl(k, v string) []*metapb.StoreLabel { return []*metapb.StoreLabel{{Key: k, Value: v}} }
+
+func putX() *step {
+	return &step{Cmd: "put", Via: "grpc", ID: rX, Addr: rXAddr, Version: "5.0.0", Labels: lbl("zone", "z1")}
+}
+func putN(id uint64, addr string) *step {
+	return &step{Cmd: "put", Via: "grpc", ID: id, Addr: addr, Version: "5.0.0"}
+}
+func one(st *step) []*step { return []*step{st} }
+
+func heartbeatCases() []raceCase {
+	up := func() []*step { return []*step{putX(), {Cmd: "reload"}} }
+	off := func() []*step { return []*step{putX(), {Cmd: "remove", ID: rX}, {Cmd: "reload"}} }
+	hb := func() []*step { return one(&step{Cmd: "storehb", ID: rX}) }
+	mk := func(name string, setup func() []*step, l func() []*step) raceCase {
+		return raceCase{name: name, setup: setup, names: [2]string{"heartbeat", "lifecycle"}, w: func() [2][]*step { return [2][]*step{hb(), l()} }}
 	}
+	return []raceCase{
+		mk("remove", up, func() []*step { return one(&step{Cmd: "remove", ID: rX}) }),
+		mk("remove-destroyed", up, func() []*step { return one(&step{Cmd: "remove", ID: rX, Destroyed: true}) }),
+		mk("remove-destroyed+replacement", up, func() []*step {
+			return []*step{{Cmd: "remove", ID: rX, Destroyed: true}, putN(3, rXAddr)}
+		}),
+		mk("up", off, func() []*step { return one(&step{Cmd: "up", ID: rX}) }),
+		mk("destroy-offline", off, func() []*step { return one(&step{Cmd: "remove", ID: rX, Destroyed: true}) }),
+		mk("bury", off, func() []*step { return one(&step{Cmd: "bury", ID: rX}) }),
+		mk("checkstores", off, func() []*step { return one(&step{Cmd: "checkstores"}) }),
+		mk("bury+cleanup", off, func() []*step { return []*step{{Cmd: "bury", ID: rX}, {Cmd: "rmtomb"}} }),
+		mk("bury+replacement", off, func() []*step { return []*step{{Cmd: "bury", ID: rX}, putN(3, rXAddr)} }),
+		mk("put-same-id", up, func() []*step {
+			return one(&step{Cmd: "put", Via: "grpc", ID: rX, Addr: "tikv-b:20160", Version: "5.0.1", Labels: lbl("zone", "z2")})
+		}),
+		mk("labels", up, func() []*step { return one(&step{Cmd: "labels", ID: rX, Labels: lbl("rack", "r1"), Force: true}) }),
+		mk("weight", up, func() []*step { return one(&step{Cmd: "weight", ID: rX, LW: 2, RW: 0.5}) }),
+		mk("reload-leader-change", up, func() []*step { return one(&step{Cmd: "reloadlc"}) }),
+	}
+}
+
+func lifecycleCases() []raceCase {
+	up := func() []*step { return []*step{putX()} }
+	off := func() []*step { return []*step{putX(), {Cmd: "remove", ID: rX}} }
+	tomb := func() []*step { return []*step{putX(), {Cmd: "remove", ID: rX}, {Cmd: "checkstores"}} }
+	moveX := func(via string) *step {
+		return &step{Cmd: "put", Via: via, ID: rX, Addr: "tikv-b:20160", Version: "5.0.1", Labels: lbl("zone", "z2")}
+	}
+	mk := func(name string, setup func() []*step, a, b func() *step) raceCase {
+		return raceCase{name: name, setup: setup, names: [2]string{"A", "B"}, w: func() [2][]*step { return [2][]*step{one(a()), one(b())} }}
+	}
+	rm := func(d bool) func() *step { return func() *step { return &step{Cmd: "remove", ID: rX, Destroyed: d} } }
+	upX := func() *step { return &step{Cmd: "up", ID: rX} }
+	bury := func() *step { return &step{Cmd: "bury", ID: rX} }
+	check := func() *step { return &step{Cmd: "checkstores"} }
+	rmtomb := func() *step { return &step{Cmd: "rmtomb"} }
+	relc := func() *step { return &step{Cmd: "reloadlc"} }
+	return []raceCase{
+		// same store
+		mk("put-same-id|remove", up, func() *step { return moveX("grpc") }, rm(false)),
+		mk("put-same-id|remove-destroyed", up, func() *step { return moveX("cluster") }, rm(true)),
+		mk("put-same-id|bury", off, func() *step { return moveX("grpc") }, bury),
+		mk("up|bury", off, upX, bury),
+		mk("up|checkstores", off, upX, check),
+		mk("remove|checkstores", up, rm(false), check),
+		mk("remove-destroyed|up", off, rm(true), upX),
+		mk("remove|remove-destroyed", up, rm(false), rm(true)),
+		mk("cleanup|cluster-put-same-id", tomb, rmtomb, func() *step { return moveX("cluster") }),
+		mk("cleanup|grpc-put-same-id", tomb, rmtomb, func() *step { return moveX("grpc") }),
+		mk("labels|put-same-id", up, func() *step { return &step{Cmd: "labels", ID: rX, Labels: lbl("rack", "r1")} }, func() *step { return moveX("grpc") }),
+		mk("weight|remove", up, func() *step { return &step{Cmd: "weight", ID: rX, LW: 2, RW: 0.5} }, rm(false)),
+		mk("reload-leader-change|remove", up, relc, rm(true)),
+		mk("reload-leader-change|bury", off, relc, bury),
+		// two stores and one address
+		mk("put-new|put-new-same-address", up, func() *step { return putN(3, "tikv-c:20160") }, func() *step { return putN(4, "tikv-c:20160") }),
+		mk("put-new-on-address|remove-destroyed-its-holder", up, func() *step { return putN(3, rXAddr) }, rm(true)),
+		mk("put-new-on-address|bury-its-holder", off, func() *step { return putN(3, rXAddr) }, bury),
+		mk("put-new-on-address|up-its-holder", off, func() *step { return putN(3, rXAddr) }, upX),
+		mk("move-to-address|put-new-on-it", up, func() *step { return moveX("grpc") }, func() *step { return putN(3, "tikv-b:20160") }),
+		mk("move-to-address|move-other-to-it", func() []*step { return []*step{putX(), putN(3, "tikv-c:20160")} },
+			func() *step { return moveX("grpc") }, func() *step { return &step{Cmd: "put", Via: "grpc", ID: 3, Addr: "tikv-b:20160", Version: "5.0.0"} }),
+		// the background check works on a snapshot of several offline empty stores
+		mk("checkstores-snapshot|up-one-of-them", func() []*step {
+			return []*step{putX(), putN(3, "tikv-c:20160"), putN(4, "tikv-d:20160"), putN(5, "tikv-e:20160"),
+				{Cmd: "remove", ID: rX}, {Cmd: "remove", ID: 3}, {Cmd: "remove", ID: 4}, {Cmd: "remove", ID: 5}}
+		}, check, upX),
+		mk("checkstores-snapshot|destroy-one-of-them", func() []*step {
+			return []*step{putX(), putN(3, "tikv-c:20160"), putN(4, "tikv-d:20160"),
+				{Cmd: "remove", ID: rX}, {Cmd: "remove", ID: 3}, {Cmd: "remove", ID: 4}}
+		}, check, rm(true)),
+	}
+}
+
+func (e *env) racePhase(md *model, rng *rand.Rand) {
+	r := e.r
 	n := 0
-	for _, c := range cases {
-		for _, order := range []string{"H-first", "L-first"} {
-			ex := &sched.Explorer{}
-			for {
-				ch := ex.Next()
-				if ch == nil {
-					break
+	run := func(tag string, c raceCase, order string, fault *raceFault, ackFinal bool) bool {
+		ex := &sched.Explorer{}
+		for {
+			ch := ex.Next()
+			if ch == nil {
+				return true
+			}
+			n++
+			if err := e.resetWorld(md); err != nil {
+				r.Inconclusive("%s %s/%s: %v", tag, c.name, order, err)
+				return false
+			}
+			hs := &historyState{H: -1000 - n, Backend: e.backend, Script: tag + "/" + c.name + "/" + order}
+			for _, st := range c.setup() {
+				e.runStep(hs, st, nil, md)
+				if e.lost != "" {
+					return false
 				}
-				n++
-				// ---- world: store 1 Up with all regions, store X registered, maybe removed; reloaded
-				if err := e.resetWorld(md); err != nil {
-					r.Inconclusive("%s %s/%s: %v", raceTag, c.name, order, err)
-					return
+				if st.Err != "" || st.PbErr != "" || st.Panic != "" {
+					r.Inconclusive("%s setup %s/%s: %s%s%s", tag, c.name, st.Cmd, st.Err, st.PbErr, st.Panic)
+					return false
 				}
-				hs := &historyState{H: -1000 - n, Backend: e.backend, Script: raceTag + "/" + c.name + "/" + order}
-				setup := []*step{{Cmd: "put", Via: "grpc", ID: X, Addr: xAddr, Version: "5.0.0", Labels: lbl("zone", "z1")}}
-				if c.offline {
-					setup = append(setup, &step{Cmd: "remove", ID: X})
-				}
-				setup = append(setup, &step{Cmd: "reload"})
-				for _, st := range setup {
-					e.runStep(hs, st, nil, md)
-					if e.lost != "" {
-						return
-					}
-					if st.Err != "" || st.PbErr != "" || st.Panic != "" {
-						r.Inconclusive("%s setup %s: %s%s%s", raceTag, st.Cmd, st.Err, st.PbErr, st.Panic)
-						return
-					}
-				}
-				s := e.raceExec(hs, md, c, order, X, ch)
-				if s == nil {
-					return
-				}
-				ex.Advance(s)
-				if ex.Runs > 40 {
-					r.Count("race_dfs_cut", 1)
-					break
-				}
+			}
+			s := e.raceExec(tag, hs, md, c, order, fault, ackFinal, ch)
+			if s == nil {
+				return false
+			}
+			ex.Advance(s)
+			if ex.Runs > 40 {
+				r.Count("race_dfs_cut", 1)
+				return true
 			}
 			if ex.Diverged > 0 {
 				r.Count("race_dfs_diverged_prefixes", int64(ex.Diverged))
+				ex.Diverged = 0
+			}
+		}
+	}
+	orders := []string{"0-first", "1-first"}
+	variants := []raceFault{{0, 1, 1}, {0, 2, 1}, {1, 1, 1}, {1, 2, 1}}
+	for _, fam := range []struct {
+		tag      string
+		cases    []raceCase
+		ackFinal bool
+	}{{raceTag, heartbeatCases(), true}, {lifeTag, lifecycleCases(), false}} {
+		for _, c := range fam.cases {
+			for _, order := range orders {
+				if !run(fam.tag, c, order, nil, fam.ackFinal) {
+					return
+				}
+			}
+			// a storage fault inside the race: quick = one variant and one start order per case,
+			// thorough = every variant x both start orders
+			if r.Thorough() {
+				for i := range variants {
+					for _, order := range orders {
+						f := variants[i]
+						if !run(fam.tag, c, order, &f, fam.ackFinal) {
+							return
+						}
+					}
+				}
+			} else {
+				f := variants[rng.Intn(len(variants))]
+				if !run(fam.tag, c, orders[rng.Intn(2)], &f, fam.ackFinal) {
+					return
+				}
 			}
 		}
 	}
 }
 
 // raceExec runs one gated execution and judges it; nil = no verdict possible (reported).
-func (e *env) raceExec(hs *historyState, md *model, c raceCase, order string, X uint64, ch func(int, []sched.Info) int) *sched.Sched {
+func (e *env) raceExec(tag string, hs *historyState, md *model, c raceCase, order string, fault *raceFault, ackFinal bool,
+	ch func(int, []sched.Info) int) *sched.Sched {
 	r := e.r
-	info := &raceInfo{Case: c.name, Order: order, X: X, H: &step{Cmd: "storehb", ID: X}, L: c.ops()}
-	ps := &step{Cmd: raceTag, ID: X, Race: info, N: len(hs.Steps)}
+	ops := c.w()
+	info := &raceInfo{Family: tag, Case: c.name, Order: order, Fault: fault,
+		Workers: []*raceWorker{{Name: c.names[0], Ops: ops[0]}, {Name: c.names[1], Ops: ops[1]}}}
+	ps := &step{Cmd: tag, ID: rX, Race: info, N: len(hs.Steps)}
 	hs.Steps = append(hs.Steps, ps)
 	prev := e.served()
-	ps.Before = stateName(prev[X])
+	ps.Before = stateName(prev[rX])
 	preRegions := map[uint64]int{}
 	ps.pdRegionCount = map[uint64]int{}
-	for id := range prev {
+	for _, id := range append(sortedIDs(prev), idPool...) {
 		preRegions[id] = md.regionCount(id)
 		ps.pdRegionCount[id] = e.rc.GetStoreRegionCount(id)
 	}
 	e.kv.ResetLog()
 	e.kv.ResetFaults()
-	var hGoid int64
-	H := func() {
-		hGoid = hist.Goid()
-		e.guard.allow(hGoid, true)
-		defer e.guard.allow(hGoid, false)
-		e.exec(info.H)
+	var mu sync.Mutex
+	goids := map[int64]int{}
+	if fault != nil {
+		nth := 0
+		fw, fn := fault.Worker, fault.N
+		e.kv.FailAllWrites(kvx.FaultMode(fault.Mode), func(kind, key string) bool {
+			if !isStoreKey(key) {
+				return false
+			}
+			mu.Lock()
+			w, ok := goids[hist.Goid()]
+			mu.Unlock()
+			if !ok || w != fw {
+				return false
+			}
+			nth++
+			return nth == fn
+		})
 	}
-	L := func() {
-		g := hist.Goid()
-		e.guard.allow(g, true)
-		defer e.guard.allow(g, false)
-		for _, op := range info.L {
-			e.exec(op)
-			info.Mids = append(info.Mids, e.served())
+	t0 := hist.Tick()
+	mkWorker := func(i int) func() {
+		return func() {
+			g := hist.Goid()
+			mu.Lock()
+			goids[g] = i
+			mu.Unlock()
+			e.guard.allow(g, true)
+			defer e.guard.allow(g, false)
+			w := info.Workers[i]
+			for _, op := range w.Ops {
+				op.Call = hist.Tick()
+				e.exec(op)
+				op.Ack = hist.Tick()
+				sv := e.served()
+				mu.Lock()
+				info.Obs = append(info.Obs, raceObs{Tick: hist.Tick(), Worker: w.Name, AfterOp: op.Cmd, Served: sv})
+				mu.Unlock()
+			}
 		}
 	}
-	workers := []func(){H, L}
-	if order == "L-first" {
-		workers = []func(){L, H}
+	workers := []func(){mkWorker(0), mkWorker(1)}
+	if order == "1-first" {
+		workers = []func(){mkWorker(1), mkWorker(0)}
 	}
 	s := sched.New()
 	s.Stagger = true
 	e.gate.Store(s)
 	s.Run(workers, ch)
 	e.gate.Store((*sched.Sched)(nil))
+	e.kv.ResetFaults()
 	info.Schedule, info.Blocked = s.Trace, s.Blocked
 	if s.Err != nil {
-		r.Inconclusive("%s scheduler: %v", raceTag, s.Err)
+		r.Inconclusive("%s scheduler: %v", tag, s.Err)
 		return nil
 	}
 	if !e.healthy() {
 		return nil
 	}
+	hbGoid := int64(-1)
+	if tag == raceTag {
+		for g, i := range goids {
+			if i == 0 {
+				hbGoid = g
+			}
+		}
+	}
 	var writes []kvx.Event
 	for _, evn := range e.kv.Log() {
-		if evn.Kind == "Save" || evn.Kind == "Remove" {
-			writes = append(writes, evn)
-			if evn.Goid == hGoid && evn.Key == fmt.Sprintf("%s%020d", storeKeyPrefix, X) {
-				info.Flushed = true
+		if evn.Kind != "Save" && evn.Kind != "Remove" {
+			continue
+		}
+		writes = append(writes, evn)
+		if evn.Goid == hbGoid && evn.Key == fmt.Sprintf("%s%020d", storeKeyPrefix, rX) {
+			info.Flushed = true
+		}
+		if evn.Fault != "" {
+			cp := evn
+			if len(cp.Value) > 0 {
+				cp.Value = fmt.Sprintf("(%d bytes)", len(cp.Value))
 			}
+			ps.Injected = &cp
 		}
 	}
 	r.Eval(1)
 	r.Count("race_executions", 1)
+	r.Count("race_executions_"+tag, 1)
 	r.Count("race_gated_storage_ops", int64(len(s.Trace)))
 	r.Count("race_quiescence_by_settle_rule", int64(s.Blocked))
-	if info.Flushed {
-		r.Count("race_heartbeat_flushes", 1)
-	} else {
-		r.Count("race_heartbeat_without_flush", 1)
+	if tag == raceTag {
+		if info.Flushed {
+			r.Count("race_heartbeat_flushes", 1)
+		} else {
+			r.Count("race_heartbeat_without_flush", 1)
+		}
 	}
-	r.Distinct("race|" + c.name + "|" + order + "|" + s.TraceKey())
-	for _, w := range append([]*step{info.H}, info.L...) {
+	fkey := ""
+	if fault != nil {
+		fkey = fmt.Sprintf("|f%d.%d", fault.Worker, fault.Mode)
+		if ps.Injected != nil {
+			r.Count("race_faults_injected", 1)
+		} else {
+			r.Count("race_fault_planned_but_no_such_write", 1)
+		}
+	}
+	r.Distinct("race|" + tag + "|" + c.name + "|" + order + fkey + "|" + s.TraceKey())
+	var all []*step
+	for _, w := range info.Workers {
+		all = append(all, w.Ops...)
+	}
+	for _, w := range all {
 		if w.Panic != "" {
-			r.Violation("panic-in-store-command:"+w.Cmd+":"+panicSite(w.Panic)+":"+raceTag, "pd panicked: "+w.Panic, e.witness(hs, prev, nil, nil))
+			r.Violation("panic-in-store-command:"+w.Cmd+":"+panicSite(w.Panic)+":"+tag, "pd panicked: "+w.Panic, e.witness(hs, prev, nil, nil))
 		}
 	}
 	cur := e.served()
+	tEnd := hist.Tick()
 	stored, orphanW, serr := e.stored()
 	if serr != nil {
 		r.Violation("stored-record-unreadable", serr.Error(), e.witness(hs, prev, cur, nil))
 		return s
 	}
-	// the chain of observations, judged pairwise by the oracles of the sequential histories
-	obs := append(append([]snap{prev}, info.Mids...), cur)
-	for i := 0; i+1 < len(obs); i++ {
-		if i+2 == len(obs) {
-			e.judge(hs, ps, nil, md, obs[i], obs[i+1], stored, orphanW, preRegions, writes)
-		} else {
-			e.judge(hs, ps, nil, md, obs[i], obs[i+1], nil, nil, preRegions, nil)
+	// how the injected fault may be judged
+	inj := ps.Injected
+	if inj != nil {
+		switch {
+		case tag == raceTag && fault.Worker == 0:
+			// a failed heartbeat flush: the record it would have written is the served one, so
+			// stored == served still has to hold; the lifecycle worker changes the record
+			ps.noDirty, ps.skipS6 = true, true
+		case tag == raceTag:
+			// the lifecycle operation failed; the heartbeat never changes the record
+			ps.s6Base = prev
+		default:
+			ps.skipS6 = true
 		}
 	}
-	// what the last acknowledgement showed is final
-	if len(info.Mids) == len(info.L) && len(info.Mids) > 0 {
-		last := info.Mids[len(info.Mids)-1]
+	// the chain of observations, judged pairwise by the oracles of the sequential histories
+	type ob struct {
+		t int64
+		s snap
+	}
+	chain := []ob{{t0, prev}}
+	for _, o := range info.Obs {
+		chain = append(chain, ob{o.Tick, o.Served})
+	}
+	chain = append(chain, ob{tEnd, cur})
+	for i := 0; i+1 < len(chain); i++ {
+		ps.edges = 0
+		for _, op := range all {
+			if op.Call != 0 && op.Call < chain[i+1].t && (op.Ack == 0 || op.Ack > chain[i].t) {
+				ps.edges++
+			}
+		}
+		if i+2 == len(chain) {
+			ps.Injected = inj
+			e.judge(hs, ps, nil, md, chain[i].s, chain[i+1].s, stored, orphanW, preRegions, writes)
+		} else {
+			ps.Injected = nil
+			e.judge(hs, ps, nil, md, chain[i].s, chain[i+1].s, nil, nil, preRegions, nil)
+		}
+	}
+	ps.Injected = inj
+	// heartbeat-race: what the last acknowledgement of the lifecycle worker showed is final
+	if ackFinal {
+		var last snap
+		for _, o := range info.Obs {
+			if o.Worker == info.Workers[1].Name {
+				last = o.Served
+			}
+		}
 		ids := map[uint64]bool{}
 		for id := range last {
 			ids[id] = true
@@ -210,6 +434,9 @@ func (e *env) raceExec(hs *historyState, md *model, c raceCase, order string, X 
 			ids[id] = true
 		}
 		for id := range ids {
+			if last == nil {
+				break
+			}
 			a, b := last[id], cur[id]
 			what := ""
 			switch {
@@ -219,7 +446,7 @@ func (e *env) raceExec(hs *historyState, md *model, c raceCase, order string, X 
 				what = diffClass(a, b)
 			}
 			if what != "" {
-				r.Violation("acknowledged-change-lost:"+what+":"+raceTag, fmt.Sprintf("store %d: after %s was acknowledged the served record was {%s}, after the overlapping heartbeat finished it is {%s}", id, c.name, recStr(a), recStr(b)), e.witness(hs, last, cur, stored))
+				r.Violation("acknowledged-change-lost:"+what+":"+tag, fmt.Sprintf("store %d: after %s was acknowledged the served record was {%s}, after the overlapping heartbeat finished it is {%s}", id, c.name, recStr(a), recStr(b)), e.witness(hs, last, cur, stored))
 			}
 		}
 	}
